@@ -412,7 +412,23 @@ pub enum Src {
 }
 
 #[derive(Clone, Debug, PartialEq)]
-pub enum Modifier { None, NotNull, Trim, Convert, Microseconds, Default(E) }
+pub enum Modifier { None, NotNull, Trim, Convert, Microseconds, Default(E),
+    /// several modifiers on one column: the CREATE TABLE grammar takes one per column, so only the first is written into the
+    /// SQL text and the others are applied through the library API (`ColumnDefinition.options`) after the table is parsed
+    Combo(Vec<Modifier>) }
+
+impl Modifier {
+    pub fn parts(&self) -> Vec<&Modifier> { match self { Modifier::Combo(v) => v.iter().flat_map(|m| m.parts()).collect(), Modifier::None => vec![], m => vec![m] } }
+}
+
+impl ColSpec {
+    pub fn not_null(&self) -> bool { self.modifier.parts().iter().any(|m| **m == Modifier::NotNull) }
+    pub fn trim(&self) -> bool { self.modifier.parts().iter().any(|m| **m == Modifier::Trim) }
+    pub fn convert(&self) -> bool { self.modifier.parts().iter().any(|m| **m == Modifier::Convert) }
+    pub fn micro(&self) -> bool { self.modifier.parts().iter().any(|m| **m == Modifier::Microseconds) }
+    pub fn default_expr(&self) -> Option<&E> { self.modifier.parts().into_iter().find_map(|m| if let Modifier::Default(e) = m { Some(e) } else { None }) }
+    pub fn api_only_parts(&self) -> Vec<&Modifier> { match &self.modifier { Modifier::Combo(_) => self.modifier.parts().into_iter().skip(1).collect(), _ => vec![] } }
+}
 
 #[derive(Clone, Debug, PartialEq)]
 pub struct ColSpec { pub name: String, pub ty: Ty, pub src: Src, pub modifier: Modifier }
@@ -422,6 +438,21 @@ pub struct PatSpec { pub name: String, pub regex: String, pub split: bool }
 
 #[derive(Clone, Debug, PartialEq)]
 pub struct TableSpec { pub name: String, pub patterns: Vec<PatSpec>, pub cols: Vec<ColSpec> }
+
+fn modifier_to_json(m: &Modifier) -> J {
+    match m {
+        Modifier::None => json!(null), Modifier::NotNull => json!("notnull"), Modifier::Trim => json!("trim"), Modifier::Convert => json!("convert"),
+        Modifier::Microseconds => json!("microseconds"), Modifier::Default(e) => json!({"default": e.to_json()}),
+        Modifier::Combo(v) => json!({"combo": v.iter().map(modifier_to_json).collect::<Vec<_>>()}),
+    }
+}
+
+fn modifier_from_json(m: &J) -> Option<Modifier> {
+    Some(if m.is_null() { Modifier::None } else if let Some(s) = m.as_str() {
+        match s { "notnull" => Modifier::NotNull, "trim" => Modifier::Trim, "convert" => Modifier::Convert, "microseconds" => Modifier::Microseconds, _ => return None }
+    } else if let Some(c) = m.get("combo") { Modifier::Combo(c.as_array()?.iter().map(modifier_from_json).collect::<Option<Vec<_>>>()?) }
+    else { Modifier::Default(E::from_json(m.get("default")?)?) })
+}
 
 impl TableSpec {
     pub fn tokens(&self) -> Vec<Tok> {
@@ -461,8 +492,8 @@ impl TableSpec {
             pu(&mut out, "=>");
             id(&mut out, &c.name);
             type_tokens_upper(&c.ty, &mut out);
-            match &c.modifier {
-                Modifier::None => {}
+            match c.modifier.parts().first().copied().unwrap_or(&Modifier::None) {
+                Modifier::None | Modifier::Combo(_) => {}
                 Modifier::NotNull => { kw(&mut out, "NOT"); nm(&mut out, "NULL"); }
                 Modifier::Trim => nm(&mut out, "TRIM"),
                 Modifier::Convert => nm(&mut out, "CONVERT"),
@@ -500,10 +531,7 @@ impl TableSpec {
                     Src::Inline(r) => json!(["inline", r]),
                     Src::Json(steps) => json!(["json", steps.iter().map(|s| match s { JsonStep::Field(f) => json!(f), JsonStep::Index(i) => json!(i) }).collect::<Vec<_>>()]),
                 },
-                "modifier": match &c.modifier {
-                    Modifier::None => json!(null), Modifier::NotNull => json!("notnull"), Modifier::Trim => json!("trim"), Modifier::Convert => json!("convert"),
-                    Modifier::Microseconds => json!("microseconds"), Modifier::Default(e) => json!({"default": e.to_json()}),
-                },
+                "modifier": modifier_to_json(&c.modifier),
             })).collect::<Vec<_>>(),
         })
     }
@@ -521,10 +549,7 @@ impl TableSpec {
                 "json" => Src::Json(s.get(1)?.as_array()?.iter().map(|x| if let Some(f) = x.as_str() { Some(JsonStep::Field(f.to_owned())) } else { x.as_u64().map(JsonStep::Index) }).collect::<Option<Vec<_>>>()?),
                 _ => return None,
             };
-            let m = c.get("modifier")?;
-            let modifier = if m.is_null() { Modifier::None } else if let Some(s) = m.as_str() {
-                match s { "notnull" => Modifier::NotNull, "trim" => Modifier::Trim, "convert" => Modifier::Convert, "microseconds" => Modifier::Microseconds, _ => return None }
-            } else { Modifier::Default(E::from_json(m.get("default")?)?) };
+            let modifier = modifier_from_json(c.get("modifier")?)?;
             cols.push(ColSpec { name: c.get("name")?.as_str()?.to_owned(), ty: ty_from_sql(c.get("ty")?.as_str()?)?, src, modifier });
         }
         Some(TableSpec { name: j.get("name")?.as_str()?.to_owned(), patterns, cols })
